@@ -93,10 +93,13 @@ T = {
 }
 
 
+UNFINISHED = {"C09"}
+
+
 def main():
     checks, na = [], []
     for pid, (cat, tech, text, note, ref) in T.items():
-        if os.path.exists(os.path.join(HERE, "mc", "props", pid.lower() + ".py")):
+        if pid not in UNFINISHED and os.path.exists(os.path.join(HERE, "mc", "props", pid.lower() + ".py")):
             checks.append(dict(property_id=pid, quick_cmd="./check %s --tier quick" % pid,
                                thorough_cmd="./check %s --tier thorough" % pid,
                                evidence_file="evidence/%s.json" % pid, replay_cmd_template="./check replay {path}",
